@@ -189,6 +189,25 @@ def quiescent_callers(prog, res):
         res.check(ok, "T3.quiescent-before-reset", "ZSTDMT_initCStream_internal->" + callee, f.loc,
                   "every path passes ZSTDMT_waitForAllJobsCompleted or the allJobsCompleted test first",
                   "%s reachable while jobs may still be running" % callee)
+    # a session reset hands the dictionary / prefix back to the caller: it must not return to the init stage while jobs of the
+    # abandoned frame still run (they read both)
+    r = prog.fn("ZSTD_CCtx_reset")
+    back = r.find_roots(lambda x: x.get("k") == "asg" and strip_casts(x["lhs"]).get("f") == "streamStage" and strip_casts(x["rhs"]).get("n") == "zcss_init")
+    wt = r.call_roots("ZSTDMT_waitForAllJobsCompleted")
+    from ..rules import guards as _g
+    nomt = _g.truthy_edges(r, lambda c: c.get("k") == "mem" and c.get("f") == "mtctx", truth=False)
+    idle = _g.rel_edges(r, lambda a: any(y.get("f") == "streamStage" for y in walk(a)), "==", lambda b_: strip_casts(b_).get("n") == "zcss_init", truth=True)
+    res.check(bool(back) and bool(wt) and r.must_pass(via_roots=wt, via_edges=nomt + idle, targets=back), "T3.quiescent-before-reset", "ZSTD_CCtx_reset", r.loc,
+              "the stream returns to its init stage only after ZSTDMT_waitForAllJobsCompleted (or without a worker context / with no frame in progress)",
+              "ZSTD_CCtx_reset returns the context to the init stage while worker jobs of the abandoned frame may still run: they read the dictionary and "
+              "prefix, which the caller may now release or replace (use-after-free)")
+    fc = prog.fn("ZSTD_freeCCtxContent")
+    stopw = fc.call_roots("ZSTDMT_freeCCtx")
+    reld = fc.call_roots(("ZSTD_clearAllDicts", "ZSTD_cwksp_free"))
+    res.check(bool(stopw) and len(reld) >= 2 and fc.must_pass(via_roots=stopw, targets=reld), "T3.quiescent-before-reset", "ZSTD_freeCCtxContent", fc.loc,
+              "the worker context is freed (workers joined / jobs awaited) before dictionaries and workspace are released",
+              "ZSTD_freeCCtxContent releases the dictionaries or the workspace before ZSTDMT_freeCCtx has stopped the workers: freeing a context in the "
+              "middle of a multithreaded frame lets running jobs read freed memory")
     g = prog.fn("ZSTDMT_freeCCtx")
     pf = g.call_roots("POOL_free")
     edges = []
